@@ -104,12 +104,18 @@ def process_graphql_query(
 
     if isinstance(document, str):
         instrumentation.on_parsing_start()
+        syntax_error = None  # type: Optional[GraphQLSyntaxError]
         try:
             ast = parse(document)
         except GraphQLSyntaxError as err:
-            return _abort(errors=[err])
+            syntax_error = err
         finally:
             instrumentation.on_parsing_end()
+
+        # Abort only once the parsing stage has been closed so that the
+        # parsing hooks are properly nested inside the query hooks.
+        if syntax_error is not None:
+            return _abort(errors=[syntax_error])
     else:
         ast = document
 
